@@ -538,6 +538,9 @@ func genPage(r *hx.Rng) Page { return genPageKind(r, "") }
 const kindBidi = "bidi"
 
 func genPageKind(r *hx.Rng, kind string) Page {
+	if kind == kindMarks {
+		return genMarksPage(r)
+	}
 	b := &builder{r: r, tags: map[string]bool{}, bidi: kind == kindBidi}
 	if b.bidi {
 		b.tag("bidi-page")
